@@ -37,9 +37,31 @@ INT_T = {ctypes.c_int8: (8, True), ctypes.c_uint8: (8, False), ctypes.c_int16: (
          ctypes.c_int32: (32, True), ctypes.c_uint32: (32, False), ctypes.c_int64: (64, True), ctypes.c_uint64: (64, False)}
 
 
+NGEN = 4
+
+
 def prepare(tier, seed, scratch):
     field_rig.build(scratch)
     field_rig.build_twin(scratch)
+    # a few generated definition closures (aliases, nested messages, field-list reuse, automatic padding, long and
+    # mixed-case names ...) compiled with the real compiler: their classes are exercised like the shipped ones
+    from vf.gen import defs as G
+    from vf.loaders import langs as L
+    from pathlib import Path
+    built = 0
+    for k in range(NGEN * 3):
+        if built == NGEN:
+            break
+        prog = G.gen_program(f"c10-{seed}-{k}", allow_known=False, tag=f"G{built}")
+        d = Path(scratch) / f"gen{built}"
+        if d.exists():
+            import shutil
+            shutil.rmtree(d)
+        root = G.write_closure(prog, d / "src")
+        (d / "out").mkdir(parents=True, exist_ok=True)
+        rc, txt = L.compile_closure(root, d / "out", name=f"vf_gen{built}", langs=("py",))
+        if rc == 0:
+            built += 1
 
 
 def load_sources():
@@ -64,6 +86,18 @@ def load_sources():
         mods["twin"] = field_rig.load_twin()     # same class names as the fixture, other fields: both live in this process
     except Exception:
         pass
+    base = os.environ.get("VF_SCRATCH", "")
+    for k in range(NGEN):
+        path = os.path.join(base, f"gen{k}", "out", f"vf_gen{k}.py")
+        if base and os.path.exists(path):
+            try:
+                spec = importlib.util.spec_from_file_location(f"vf_gen{k}", path)
+                m = importlib.util.module_from_spec(spec)
+                sys.modules[f"vf_gen{k}"] = m
+                spec.loader.exec_module(m)
+                mods[f"gen{k}"] = m
+            except Exception:
+                pass
     out = {}
     for key, m in mods.items():
         lst = []
@@ -145,13 +179,14 @@ def fill(obj, mode, rng, depth=0):
 def gen_cases(tier, seed):
     rng = random.Random(f"c10-{seed}")
     src = {"core": 0, "tests": 0, "fixture": 0, "twin": 0}
+    gens = [f"gen{k}" for k in range(NGEN)]
     cases = []
     reps = 2 if tier == "quick" else 200
     # class lists are resolved in the worker (by index modulo); here only descriptors
-    for source in ("core", "tests", "fixture", "twin"):
-        for chunk in range(16 if source not in ("fixture", "twin") else 4):
+    for source in ["core", "tests", "fixture", "twin"] + gens:
+        for chunk in range(16 if source in ("core", "tests") else 4):
             for r in range(reps):
-                cases.append({"source": source, "chunk": chunk, "nchunks": 16 if source not in ("fixture", "twin") else 4, "seed": rng.getrandbits(32)})
+                cases.append({"source": source, "chunk": chunk, "nchunks": 16 if source in ("core", "tests") else 4, "seed": rng.getrandbits(32)})
     return cases
 
 
